@@ -115,113 +115,151 @@ End E.
 Module L.
 Import LimitBid LimitBidProofs.
 
-(* recorded total = sum of the individual deposits, the deposits are fully held in custody, no
-   record is negative -- for every history outside the two known-finding classes.
-   PARTIAL: carried only under [clean_run] (no withdraw above the own record / in a foreign denom
-   = kf_C11_1; no automatic fill that meets a record equal to the auction debt = kf_C11_2; the
-   Dutch settlement of an automatic fill disburses at most what the record is charged) *)
-Theorem c11_limit_total_partial : forall c l0 ops,
-  fee_wf c -> clean_run c (lempty l0) ops ->
+(* Limit bids, on the repaired code (fixes C11-F1: withdraw checks amount <= own deposit and the
+   denom; C11-F2: the equal-amount automatic fill reduces BidValue).  [ops] is ANY finite history
+   of deposit / cancel / withdraw messages (any sender, any amount, any denom, any asset ids,
+   any premium) and automatic fills (any auction debt, any listing of records, any settlement
+   outcome), started from the empty book over any ledger. *)
+
+(* the recorded total of every market equals the sum of the individual deposits, no deposit is
+   negative, every deposit is in the denom of its market's debt asset -- no hypothesis at all *)
+Theorem c11_limit_total : forall c l0 ops,
   let s := lrun c (lempty l0) ops in
-  (forall m, tot m s = sum_market m s) /\
-  (forall d, sum_denom d s <= led s MOD d - l0 MOD d) /\
-  Forall nonneg (recs s).
+  (forall m, tot m s = sum_market m s) /\ Forall nonneg (recs s) /\ Forall (denom_ok c) (recs s).
 Proof.
-  intros c l0 ops Hf Hc s.
-  destruct (lrun_inv c l0 ops _ Hf (linv_empty l0) Hc) as (H1 & H2 & H3). auto.
+  intros c l0 ops s.
+  destruct (lrun_invB c ops _ (proj1 (linv_empty c l0))) as (H1 & H2 & H3). auto.
 Qed.
-Print Assumptions c11_limit_total_partial.
+Print Assumptions c11_limit_total.
 
-(* a withdraw outside kf_C11_1 pays the depositor, and nobody else, amount - fee <= own deposit,
-   in the deposited denom; record total drops by the amount.
-   PARTIAL: under kf_C11_1 = false, in a state that satisfies the invariant above *)
-Theorem c11_limit_own_partial : forall c l0 s who coll debt prem denom amt s',
-  fee_wf c -> LInv l0 s -> 0 <= who ->
-  kf_C11_1 s (Withdraw who coll debt prem denom amt) = false ->
+(* the deposits are fully held in custody: in every denom the module account holds, on top of
+   what it held when the history started, at least the sum of the deposits.  Hypotheses = the
+   environment only: fees are fractions in [0,1]; messages are sent by bidder accounts (ids >= 0,
+   not the module account itself); the Dutch settlement run by an automatic fill disburses no
+   more of the module's debt coins than the filled records are charged (C10's concern) *)
+Theorem c11_limit_custody : forall c l0 ops,
+  fee_wf c -> env_run c (lempty l0) ops ->
+  let s := lrun c (lempty l0) ops in
+  forall d, sum_denom d s <= led s MOD d - l0 MOD d.
+Proof.
+  intros c l0 ops Hf He s. exact (proj2 (lrun_inv c l0 ops _ Hf (linv_empty c l0) He)).
+Qed.
+Print Assumptions c11_limit_custody.
+
+(* ... in particular for every history of messages alone *)
+Theorem c11_limit_custody_msgs : forall c l0 ops,
+  fee_wf c -> Forall is_msg ops ->
+  let s := lrun c (lempty l0) ops in
+  forall d, sum_denom d s <= led s MOD d - l0 MOD d.
+Proof.
+  intros c l0 ops Hf Hm. exact (c11_limit_custody c l0 ops Hf (env_run_msgs c ops _ Hm)).
+Qed.
+Print Assumptions c11_limit_custody_msgs.
+Example c11_limit_msgs_nonvacuous :
+  Forall is_msg [Deposit 0 1 2 5 0 1000000; Withdraw 0 1 2 5 0 2900000; Cancel 1 1 2 5; Withdraw 0 1 2 5 1 7] /\
+  ~ is_msg (AutoFill 2 1 5 1000000 [0] 0 true) /\ ~ is_msg (Cancel MOD 1 2 5).
+Proof. split; [repeat constructor; cbn; lia|]. split; cbn; unfold MOD; [tauto|lia]. Qed.
+
+(* the executable predicates that the runner evaluates on the implementation's observations are
+   consequences of the two theorems above *)
+Theorem c11_limit_predicates : forall c l0 ops,
+  fee_wf c -> env_run c (lempty l0) ops ->
+  let s := lrun c (lempty l0) ops in
+  (forall m, holds_C11_limit_total s m = true) /\
+  (forall d, holds_C11_limit_custody s d (l0 MOD d) = true).
+Proof.
+  intros c l0 ops Hf He s. exact (linv_holds c l0 _ (lrun_inv c l0 ops _ Hf (linv_empty c l0) He)).
+Qed.
+Print Assumptions c11_limit_predicates.
+
+(* own deposit only: in ANY reachable state an accepted withdraw is in the deposited denom, of at
+   most the sender's own outstanding deposit; it pays the sender amount - fee with
+   0 <= fee <= amount, pays nobody else anything, and the market total drops by the amount *)
+Theorem c11_limit_own : forall c l0 ops who coll debt prem denom amt s',
+  fee_wf c ->
+  let s := lrun c (lempty l0) ops in
   lstep c s (Withdraw who coll debt prem denom amt) = Ok s' ->
-  exists r x fee, aget keq (mkK debt coll prem who) (recs s) = Some r /\
-    0 <= x <= r_amt r /\ 0 <= fee <= x /\ x = amt /\
+  exists r fee, aget keq (mkK debt coll prem who) (recs s) = Some r /\
+    denom = r_denom r /\ 0 < amt <= r_amt r /\ 0 <= fee <= amt /\
     (forall acct d, acct <> MOD ->
-       led s' acct d = led s acct d + (if (acct =? who) && (d =? r_denom r) then x - fee else 0)) /\
-    tot (debt, coll) s' = tot (debt, coll) s - x.
-Proof. exact withdraw_own. Qed.
-Print Assumptions c11_limit_own_partial.
+       led s' acct d = led s acct d + (if (acct =? who) && (d =? r_denom r) then amt - fee else 0)) /\
+    tot (debt, coll) s' = tot (debt, coll) s - amt.
+Proof.
+  intros c l0 ops who coll debt prem denom amt s' Hf s.
+  exact (withdraw_own c s who coll debt prem denom amt s' Hf (lrun_invB c ops _ (proj1 (linv_empty c l0)))).
+Qed.
+Print Assumptions c11_limit_own.
 
-(* a cancel pays the depositor its own deposit minus the closing fee, in the deposited denom,
-   and nobody else anything (holds on the real code; needs only the invariant of the state) *)
-Theorem c11_limit_cancel_own : forall c l0 s who coll debt prem s',
-  fee_wf c -> LInv l0 s -> 0 <= who ->
+(* a cancel pays the sender its own deposit minus the closing fee, in the deposited denom, and
+   nobody else anything; the market total drops by the deposit *)
+Theorem c11_limit_cancel_own : forall c l0 ops who coll debt prem s',
+  fee_wf c ->
+  let s := lrun c (lempty l0) ops in
   lstep c s (Cancel who coll debt prem) = Ok s' ->
   exists r fee, aget keq (mkK debt coll prem who) (recs s) = Some r /\ 0 <= fee <= r_amt r /\
     (forall acct d, acct <> MOD ->
        led s' acct d = led s acct d + (if (acct =? who) && (d =? r_denom r) then r_amt r - fee else 0)) /\
     tot (debt, coll) s' = tot (debt, coll) s - r_amt r.
 Proof.
-  intros c l0 s who coll debt prem s' Hf HI Hw. cbn [lstep].
-  destruct ((coll =? 0) || (debt =? 0)); [discriminate|].
-  intros C. exact (proj2 (cancel_spec c l0 s who coll debt prem s' Hf HI Hw C)).
+  intros c l0 ops who coll debt prem s' Hf s. cbn [lstep].
+  destruct ((coll =? 0) || (debt =? 0)); [discriminate|]. intros C.
+  destruct (cancel_spec c s who coll debt prem s' Hf (lrun_invB c ops _ (proj1 (linv_empty c l0))) C)
+    as (r & fee & Hg & Hfee & Hl & _ & _ & Ht).
+  exists r, fee. repeat split; try lia; auto.
+  intros acct d Ha. rewrite Hl. destruct (Z.eqb_spec acct MOD); [contradiction|]. cbn [andb]. lia.
 Qed.
 Print Assumptions c11_limit_cancel_own.
 
-(* ---- refutations inside the known-finding classes (witnesses by computation) ---- *)
+(* ---- regression cases: the witnesses of the two repaired defects now pass ---- *)
 Definition cfg0 : cfg := mkCfg [(2, 0); (1, 1); (3, 2)] 0 0.
 Definition rich : ledger := fun a d => if 0 <=? a then 10000000 else 0.
 
-(* kf_C11_1, amount: a depositor of 1 000 000 withdraws 2 900 000; the record and what is left of
-   the total go to -1 900 000 / 1 100 000 and the other depositor's 3 000 000 is no longer held *)
-Theorem c11_limit_own_refuted : exists c l0 ops who k k2,
-  let s := lrun c (lempty l0) ops in
-  led s who 0 - l0 who 0 = 1900000 /\                (* net gain over own money *)
-  dep k s = -1900000 /\ tot (market k) s = 1100000 /\
-  dep k2 s = 3000000 /\ led s MOD 0 = 1100000 /\
-  kf_C11_1 (lrun c (lempty l0) (firstn 2 ops)) (nth 2 ops (Cancel 0 0 0 0)) = true.
-Proof.
-  exists cfg0, rich, [Deposit 0 1 2 5 0 1000000; Deposit 1 1 2 5 0 3000000; Withdraw 0 1 2 5 0 2900000],
-    0, (mkK 2 1 5 0), (mkK 2 1 5 1).
-  vm_compute. repeat split.
-Qed.
-Print Assumptions c11_limit_own_refuted.
+(* C11-F1, amount: a depositor of 1 000 000 asks for 2 900 000 of the module's 4 000 000: refused;
+   nothing moves (on the original code: record -1 900 000, the other depositor's 3 000 000 backed
+   by 1 100 000) *)
+Example c11_limit_own_regression :
+  let ops := [Deposit 0 1 2 5 0 1000000; Deposit 1 1 2 5 0 3000000; Withdraw 0 1 2 5 0 2900000] in
+  let s := lrun cfg0 (lempty rich) ops in
+  lstep cfg0 (lrun cfg0 (lempty rich) (firstn 2 ops)) (nth 2 ops (Cancel 0 0 0 0)) = Err 7 /\
+  led s 0 0 = 9000000 /\ dep (mkK 2 1 5 0) s = 1000000 /\ dep (mkK 2 1 5 1) s = 3000000 /\
+  tot (2, 1) s = 4000000 /\ led s MOD 0 = 4000000.
+Proof. vm_compute. repeat split. Qed.
 
-(* kf_C11_1, denom: a depositor of asset 2 (denom 0) withdraws 500 000 of denom 1, which the
-   module holds for another depositor; that depositor's 3 000 000 is then backed by 2 500 000 *)
-Theorem c11_limit_denom_refuted : exists c l0 ops,
-  let s := lrun c (lempty l0) ops in
-  led s 0 1 - l0 0 1 = 500000 /\ sum_denom 1 s = 3000000 /\ led s MOD 1 - l0 MOD 1 = 2500000 /\
-  kf_C11_1 (lrun c (lempty l0) (firstn 2 ops)) (nth 2 ops (Cancel 0 0 0 0)) = true.
-Proof.
-  exists cfg0, rich, [Deposit 0 1 2 5 0 1000000; Deposit 1 3 1 5 1 3000000; Withdraw 0 1 2 5 1 500000].
-  vm_compute. repeat split.
-Qed.
-Print Assumptions c11_limit_denom_refuted.
+(* C11-F1, denom: a depositor of asset 2 (denom 0) asks for 500 000 of denom 1, which the module
+   holds for another market: refused (on the original code: paid out) *)
+Example c11_limit_denom_regression :
+  let ops := [Deposit 0 1 2 5 0 1000000; Deposit 1 3 1 5 1 3000000; Withdraw 0 1 2 5 1 500000] in
+  let s := lrun cfg0 (lempty rich) ops in
+  lstep cfg0 (lrun cfg0 (lempty rich) (firstn 2 ops)) (nth 2 ops (Cancel 0 0 0 0)) = Err 5 /\
+  led s 0 1 = 10000000 /\ sum_denom 1 s = 3000000 /\ led s MOD 1 = 3000000 /\ dep (mkK 2 1 5 0) s = 1000000.
+Proof. vm_compute. repeat split. Qed.
 
-(* kf_C11_2 (as the code reads; not reproduced through the harness, hence not listed as a known
-   finding): the automatic fill of a record equal to the auction debt deletes the record and
-   returns before BidValue is reduced: total 1 000 000, sum of deposits 0 *)
-Theorem c11_limit_total_refuted : exists c l0 ops m,
-  let s := lrun c (lempty l0) ops in
-  tot m s = 1000000 /\ sum_market m s = 0 /\
-  kf_C11_2 (lrun c (lempty l0) (firstn 1 ops)) (nth 1 ops (Cancel 0 0 0 0)) = true.
-Proof.
-  exists cfg0, rich, [Deposit 0 1 2 5 0 1000000; AutoFill (mkK 2 1 5 0) 1000000 1000000 true], (2, 1).
-  vm_compute. repeat split.
-Qed.
-Print Assumptions c11_limit_total_refuted.
+(* C11-F2: the automatic fill of a record equal to the auction debt deletes the record AND
+   reduces the total (on the original code: total 1 000 000, sum of deposits 0) *)
+Example c11_limit_total_regression :
+  let ops := [Deposit 0 1 2 5 0 1000000; AutoFill 2 1 5 1000000 [0] 906000 true] in
+  let s := lrun cfg0 (lempty rich) ops in
+  tot (2, 1) s = 0 /\ sum_market (2, 1) s = 0 /\ recs s = [] /\ led s MOD 0 = 94000 /\
+  env_run cfg0 (lempty rich) ops.
+Proof. vm_compute. repeat split; try lia; discriminate. Qed.
 
-(* non-vacuity: a clean history with two depositors, a fee-bearing partial withdraw, a cancel
-   and a partial automatic fill; the hypotheses of the partial theorems are met *)
+(* non-vacuity: two depositors, a fee-bearing partial withdraw, an automatic fill over both
+   records of the premium (the first is charged the whole auction debt, the second -- against
+   the same, never re-read, debt -- too), a refused over-withdraw, a cancel; the environment
+   hypotheses of the custody theorem are met and the state is not trivial *)
 Definition cfg1 : cfg := mkCfg [(2, 0); (1, 1); (3, 2)] 5000000000000000 10000000000000000.
 Definition ex_ops : list lop :=
   [Deposit 0 1 2 5 0 1000000; Deposit 1 1 2 5 0 3000000; Withdraw 0 1 2 5 0 400000;
-   AutoFill (mkK 2 1 5 1) 1000000 1000000 true; Cancel 0 1 2 5].
+   AutoFill 2 1 5 500000 [0; 1] 700000 true; Withdraw 1 1 2 5 0 2500001; Cancel 0 1 2 5].
 Example c11_limit_nonvacuous :
-  fee_wf cfg1 /\ clean_run cfg1 (lempty rich) ex_ops /\
+  fee_wf cfg1 /\ env_run cfg1 (lempty rich) ex_ops /\
   let s := lrun cfg1 (lempty rich) ex_ops in
-  tot (2, 1) s = 2000000 /\ dep (mkK 2 1 5 1) s = 2000000 /\ dep (mkK 2 1 5 0) s = 0 /\
-  led s 0 0 = 10000000 - 1000000 + 396000 + 597000 /\ led s MOD 0 = 2007000.
+  tot (2, 1) s = 2500000 /\ dep (mkK 2 1 5 1) s = 2500000 /\ dep (mkK 2 1 5 0) s = 0 /\
+  led s 0 0 = 10000000 - 1000000 + 396000 + 99500 /\ led s MOD 0 = 2804500.
 Proof.
   split; [unfold fee_wf, cfg1; cbn; pose proof P18_pos; split; split; try lia;
           change P18 with 1000000000000000000; lia|].
-  split; [vm_compute; repeat split; try discriminate; intros H; discriminate H|].
+  split; [vm_compute; repeat split; try lia; discriminate|].
   vm_compute. repeat split.
 Qed.
 End L.
